@@ -954,8 +954,11 @@ class Judge:
             if r1.error is not None:
                 self.disc("fault", "timeout-affected-fast-startup", f"startup takes {L} virtual seconds, timeout={T}: raised {short_exc(r1.error)}")
                 return
-            a = [(e["k"], e["p"], e["t"]) for e in r0.trace if e["k"] != "teardown"]
-            b = [(e["k"], e["p"], e["t"]) for e in r1.trace if e["k"] != "teardown"]
+            # (which of two components runs first within one virtual instant is the scheduler's choice, and the
+            # watcher task of the timeout changes trio's seeded choices: a lookup racing a publication may go either
+            # way and shift later times.  What must agree is WHAT happened: the same phases began and ended)
+            a = [(e["k"], e["p"]) for e in r0.trace if e["k"] not in ("teardown", "lookup", "publish")]
+            b = [(e["k"], e["p"]) for e in r1.trace if e["k"] not in ("teardown", "lookup", "publish")]
             if sorted(a) != sorted(b):
                 self.disc("fault", "timeout-changed-trace", f"startup with timeout={T} > duration {L} produced a different trace than without timeout")
         else:
